@@ -45,11 +45,11 @@ NOT_APPLICABLE = {}
 
 PROPS["C16"] = dict(
     harness="c16_sparselu", flavour="asan",
-    quick=dict(workers=8, cases=8000, min_nontrivial=200),
+    quick=dict(workers=8, cases=6000, min_nontrivial=200),
     thorough=dict(workers=16, cases=250000, min_nontrivial=2000, budget_s=3000),
     rule="Square sparse matrices admitting LU without pivoting by construction: patterns banded/arrow/random density "
          "0.02-0.5/block/9-point x values strictly row-dominant, column-dominant, or the product of a sparse unit-lower L "
-         "and an upper U with |u_ii| in [0.1,10] (not dominant, non-symmetric); rows scaled by 10^U[-k,k], k in {0,3,6}, "
+         "and an upper U with |u_ii| in [0.1,10] (not dominant, non-symmetric); rows scaled by 10^U[-k,k], k in {0,3,6,9,12}, "
          "or all rows scaled to 1e-15..1e-12 (class tiny, solved in a forked child so a process exit is observed); "
          "explicit zeros inserted; columns inside a row sorted/reversed/shuffled; all three CSR construction paths; "
          "n=1..60 and 120/300; 1-4 right-hand sides. Non-trivial: fill-in occurs or a row is stored unsorted. "
